@@ -1398,6 +1398,13 @@ func (sc *serverConn) handleHeaderFrame(strm *Stream, fr *FrameHeader) error {
 			return NewGoAwayError(ProtocolError, "stream not open")
 		}
 
+		// A trailer carries no pseudo-header field at all. The check below
+		// only knows "after a regular field", which let one through when the
+		// request itself had no regular field and had not used that
+		// pseudo-header: an :authority in the trailer became the request's.
+		// https://httpwg.org/specs/rfc7540.html#rfc.section.8.1.2.1
+		strm.regularSeen = true
+
 		// END_HEADERS may come later: like any header block, a trailer can be
 		// continued in CONTINUATION frames, and the request is not complete
 		// until those have arrived.
